@@ -603,6 +603,258 @@ def item_stream(report, jv, dr, tier):
     return {"items": len(items), "items_compiling": len(ok), "item_kinds": kinds, "item_mismatches": mism}
 
 
+def to_file_tks(text, toks):
+    """tokens of a whole justfile: white space dropped; Text and Comment tokens carry their lexeme; Eol, Indent, Dedent, Eof,
+    ByteOrderMark kept by kind"""
+    b = text.encode("utf-8")
+    kept = [t for t in toks if t["kind"] not in ("Whitespace", "Eof")]
+    base = to_tks(text, [t for t in toks if t["kind"] != "Eof"], keep_eol=True)
+    out = []
+    for t, m in zip(kept, base):
+        k = t["kind"]
+        if k in ("Text", "Comment"):
+            out.append({"k": k, "s": b[t["offset"]:t["offset"] + t["length"]].decode("utf-8")})
+        else:
+            out.append(m)
+    if any(t["kind"] == "Eof" for t in toks):
+        out.append({"k": "Eof"})
+    return out
+
+
+T3 = "'" * 3
+D3 = '"' * 3
+AST_ATTRS = ATTRS + ["script('sh')", "script(x'sh', \"-c\")", "group(x'g3')", "group('a')", "group(\"b\")", "group(%sc%s)" % (T3, T3), "doc(\"two\\nlines\")",
+                     "confirm(x 'spaced')", "nosuch", "private('x')", "group", "extension('.a', '.b')", "confirm('a',)"]
+AST_LITS = ["'s'", '"d"', "x's'", "x \"d\"", "%st%s" % (T3, T3), "%su%s" % (D3, D3), "'a b'", "'中'"]
+PARSER_ERRORS = {"UnexpectedToken", "ExpectedKeyword", "UnknownSetting", "UnknownAttribute", "AttributeArgumentCountMismatch", "DuplicateAttribute",
+                 "ExtraneousAttributes", "InvalidAttribute", "ShebangAndScriptAttribute", "NoCdAndWorkingDirectoryAttribute",
+                 "ExitMessageAndNoExitMessageAttribute", "ParameterFollowsVariadicParameter"}
+
+
+def gen_ast_file(rng, idx):
+    """whole justfiles that exercise the item loop of parse_ast: every item kind, doc comments, attribute lines in both
+    syntaxes and grouped, trailing comments, blank lines anywhere, several items on one line where the parser allows it,
+    shell-expanded literals, a missing final newline, a byte order mark; a share of them is deliberately malformed"""
+    out = []
+    nrec = 0
+    used = set()
+    bad = rng.random() < 0.25
+
+    def trail():
+        r = rng.random()
+        return "  # trailing" if r < 0.12 else ("#t" if r < 0.16 else "")
+
+    def attr_lines(pool, n):
+        lines = []
+        chosen = [rng.choice(pool) for _ in range(n)]
+        if not bad:
+            seen = set()
+            keep = []
+            for a in chosen:
+                key = a.split("(")[0].split(":")[0]
+                if key in ("nosuch",) or a in ("private('x')", "group", "extension('.a', '.b')", "confirm('a',)"):
+                    continue
+                if key in seen and key != "group":
+                    continue
+                if key == "group" and a in keep:
+                    continue
+                seen.add(key)
+                keep.append(a)
+            chosen = keep
+            keys = {a.split("(")[0].split(":")[0] for a in chosen}
+            if "no-cd" in keys and "working-directory" in keys:
+                chosen = [a for a in chosen if not a.startswith("no-cd")]
+            if "exit-message" in keys and "no-exit-message" in keys:
+                chosen = [a for a in chosen if not a.startswith("exit-message")]
+        i = 0
+        while i < len(chosen):
+            k = rng.choice([1, 1, 1, 2, 3])
+            lines.append("[%s]%s" % (", ".join(chosen[i:i + k]), trail()))
+            i += k
+        return lines
+
+    for _ in range(rng.randint(1, 8)):
+        r = rng.random()
+        if r < 0.14:
+            out.append("#%s%s" % (rng.choice(["", " ", "  ", "\t"]), rng.choice(["note", "", "doc 中", "x := 1", "trailing space  ", "#!shebang", " "])))
+            if rng.random() < 0.35:
+                out.append("")
+        elif r < 0.24:
+            nm = rng.choice(BOOL_SETTINGS + STRING_SETTINGS + LIST_SETTINGS + (["nosuch"] if bad else []))
+            if nm in used and not bad:
+                continue
+            used.add(nm)
+            if nm in BOOL_SETTINGS:
+                out.append("set %s%s%s" % (nm, rng.choice(["", " := true", " := false", ":=true", " := maybe" if bad else ""]), trail()))
+            elif nm in STRING_SETTINGS:
+                out.append("set %s := %s%s" % (nm, rng.choice(AST_LITS), trail()))
+            else:
+                lits = [rng.choice(AST_LITS) for _ in range(rng.randint(1, 3))]
+                out.append("set %s := [%s%s]%s" % (nm, ", ".join(lits), rng.choice(["", ","]), trail()))
+        elif r < 0.36:
+            nm = rng.choice(["w%d" % rng.randrange(6), "_hidden%d" % rng.randrange(3), "export", "alias", "set", "mod"])
+            if nm in used and not bad:
+                continue
+            used.add(nm)
+            pre = rng.choice(["", "", "export ", "[private]\n", "[private]\nexport "])
+            out.append("%s%s := %s%s" % (pre, nm, gen_model_expr(rng, rng.randint(0, 2)), trail()))
+        elif r < 0.44 and nrec:
+            out.extend(attr_lines(["private", "private", "no-cd" if bad else "private"], rng.choice([0, 0, 1])))
+            nm = "al%d_%d" % (idx, len(out))
+            out.append("alias %s := r%d%s" % (nm, rng.randrange(nrec), trail()))
+        elif r < 0.50:
+            out.append("unexport %s%s" % (rng.choice(["FOO", "BAR", "x"]), "" if not bad else trail()))
+        elif r < 0.58:
+            out.append("import%s %s" % (rng.choice(["", "?"]), rng.choice(AST_LITS)) + rng.choice(["", "", " # c", " import 'again.just'"]))
+        elif r < 0.68:
+            if rng.random() < 0.3:
+                out.append("# module doc")
+            out.extend(attr_lines(["group('mg')", "doc('md')", "doc", "group: 'mh'", "private" if bad else "doc"], rng.choice([0, 0, 1, 2])))
+            nm = "m%d" % rng.randrange(4)
+            if nm in used and not bad:
+                out.append("")
+                continue
+            used.add(nm)
+            out.append("mod%s %s%s" % (rng.choice(["", "?"]), nm, rng.choice(["", "", " 'p.just'", " x'p.just'", " # c"])))
+        else:
+            if rng.random() < 0.35:
+                out.append("#%s%s" % (rng.choice(["", " ", "   "]), rng.choice(["doc", "doc  ", "", "d 中", "!"])))
+                if rng.random() < 0.15:
+                    out.append("")
+            out.extend(attr_lines(AST_ATTRS, rng.choice([0, 0, 1, 1, 2, 3])))
+            name = rng.choice(["r%d" % nrec, "r%d" % nrec, "_r%d" % nrec]) if rng.random() < 0.9 else rng.choice(["set", "mod", "import", "alias", "export", "unexport"])
+            if name in used:
+                continue
+            used.add(name)
+            head = gen_header(rng, 0).split(":", 1)[0].replace("r0", name, 1) + ":" + trail()
+            out.append(head)
+            if name.lstrip("_").startswith("r"):
+                nrec += 1
+            ind = rng.choice(["  ", "\t", "    "])
+            for k in range(rng.choice([0, 0, 1, 2, 3])):
+                if k > 0 and rng.random() < 0.15:
+                    out.append("")
+                out.append(ind + rng.choice(["echo a", "#!/bin/sh", "# c", "x {{v}} y", "{{'s'}}", "@-ls", "a \\", "  deeper"]))
+        if rng.random() < 0.4:
+            out.append("")
+    text = "v := 'q'\nv0 := 'a'\nv1 := 'b'\nv2 := 'c'\nelse := 'e'\nx := 'x'\nassert_ := 'z'\niff := 'i'\n" + "\n".join(out) + "\n"
+    r = rng.random()
+    if r < 0.1:
+        text = text.rstrip("\n")
+    elif r < 0.15:
+        text = "﻿" + text
+    elif r < 0.22 and "\\\n" not in text:
+        text = text.replace("\n", "\r\n")
+    return text
+
+
+def ast_summary(dump):
+    """what the items of a justfile determine in the JSON dump (names, docs, attribute names, privacy, settings, unexports)"""
+    out = {"recipes": {}, "assignments": {}, "aliases": {}, "unexports": sorted(dump.get("unexports") or [])}
+    for n, r in dump["recipes"].items():
+        out["recipes"][n] = {"doc": r["doc"], "attributes": sorted((a if isinstance(a, str) else list(a)[0]) for a in r["attributes"]), "private": r["private"],
+                             "quiet": r["quiet"], "parameters": [p["name"] for p in r["parameters"]], "priors": r["priors"],
+                             "dependencies": [d["recipe"] for d in r["dependencies"]], "lines": len(r["body"])}
+    for n, a in dump["assignments"].items():
+        out["assignments"][n] = {"export": a["export"], "private": a["private"]}
+    for n, a in dump["aliases"].items():
+        out["aliases"][n] = {"private": "private" in a["attributes"], "target": a["target"]}
+    return out
+
+
+def model_summary(items):
+    out = {"recipes": {}, "assignments": {}, "aliases": {}, "unexports": []}
+    flags = {}
+    dup = False
+    for it in items:
+        k = it["kind"]
+        if k == "recipe":
+            names = [a["name"] for a in it["attributes"]]
+            os_attrs = set(names) & {"windows", "macos", "openbsd", "linux", "unix"}
+            if os_attrs and not (os_attrs & {"linux", "unix"}):
+                continue          # disabled on this system: not in the dump
+            dup = dup or it["name"] in out["recipes"]
+            out["recipes"][it["name"]] = {"doc": it["doc"], "attributes": sorted(names), "private": it["name"].startswith("_") or "private" in names,
+                                          "quiet": it["quiet"], "parameters": [p["name"] for p in it["parameters"]], "priors": it["priors"],
+                                          "dependencies": [d["recipe"] for d in it["dependencies"]], "lines": len(it["body"]),
+                                          "_docattr": "doc" in names}
+        elif k == "assignment":
+            dup = dup or it["name"] in out["assignments"]
+            out["assignments"][it["name"]] = {"export": it["export"], "private": it["private"]}
+        elif k == "alias":
+            out["aliases"][it["name"]] = {"private": it["private"], "target": it["target"][-1]}
+        elif k == "unexport":
+            out["unexports"].append(it["name"])
+        elif k == "set" and isinstance(it["value"], bool):
+            dup = dup or it["name"] in flags
+            flags[it["name"].replace("-", "_")] = it["value"]
+    out["unexports"] = sorted(out["unexports"])
+    return out, flags, dup
+
+
+def ast_stream(report, jv, dr, tier, corpus):
+    """whole files: the Lean parse_ast / Display-for-Ast model against parser.rs and the formatter"""
+    rng = random.Random(report.seed ^ 0xa57)
+    n = 3000 if tier == "quick" else 40000
+    srcs = [gen_ast_file(rng, i) for i in range(n)]
+    extra = list(corpus)
+    rng.shuffle(extra)
+    srcs += extra[: (1500 if tier == "quick" else 30000)]
+    comp = jv.pbatch([{"op": "compile", "src": s} for s in srcs], chunk=500)
+    lexed = jv.pbatch([{"op": "lex", "src": s} for s in srcs])
+    def parser_error(c):
+        # InvalidAttribute on a recipe comes from the analyzer (`[extension]` without a script)
+        return c.get("error") in PARSER_ERRORS and not (c.get("error") == "InvalidAttribute" and (c.get("message") or "").startswith("Recipe"))
+    todo = [(s, c, lx) for s, c, lx in zip(srcs, comp, lexed) if "tokens" in lx and ("dump" in c or parser_error(c))]
+    model = dr.pbatch([{"op": "ast", "tokens": to_file_tks(s, lx["tokens"])} for s, c, lx in todo])
+    oks = [(s, c, lx, m) for (s, c, lx), m in zip(todo, model) if "dump" in c]
+    relex = jv.pbatch([{"op": "lex", "src": c["formatted"]} for s, c, lx, m in oks])
+    mism = 0
+    stats = {"ast_files": len(srcs), "ast_compiling": len(oks), "ast_parser_errors": len(todo) - len(oks), "ast_item_kinds": {}, "ast_error_kinds": {}}
+    for (s, c, lx), m in zip(todo, model):
+        if "dump" in c:
+            continue
+        stats["ast_error_kinds"][c["error"]] = stats["ast_error_kinds"].get(c["error"], 0) + 1
+        if "items" in m:
+            mism += 1
+            report.failure("c10-model-ast-accepts:%s" % c["error"], "the Lean parse_ast accepts a file parser.rs rejects (%s)" % c["error"],
+                           {"op": "ast-model", "src": s, "correspondence": "parse_ast (vlib/c10.py ast_stream)", "impl": c.get("message")}, no_input=True)
+    for (s, c, lx, m), rl in zip(oks, relex):
+        replay = {"op": "ast-model", "src": s, "correspondence": "parse_ast / Display for Ast (vlib/c10.py ast_stream)"}
+        if "items" not in m:
+            mism += 1
+            report.failure("c10-model-ast-rejects", "the Lean parse_ast rejects a file parser.rs accepts", dict(replay, model=m), no_input=True)
+            continue
+        for it in m["items"]:
+            stats["ast_item_kinds"][it["kind"]] = stats["ast_item_kinds"].get(it["kind"], 0) + 1
+        want = to_file_tks(c["formatted"], rl["tokens"]) if "tokens" in rl else None
+        if m.get("printed") != want:
+            mism += 1
+            mp, wp = m.get("printed") or [], want or []
+            i = next((i for i, (a, b) in enumerate(zip(mp, wp)) if a != b), min(len(mp), len(wp)))
+            report.failure("c10-model-ast-printer", "Lean Display-for-Ast and the formatter disagree on the printed tokens (first difference at token %d)" % i,
+                           dict(replay, model=mp[max(0, i - 3):i + 4], impl=wp[max(0, i - 3):i + 4], formatted=c["formatted"]), no_input=True)
+            continue
+        if not m.get("reparse_same"):
+            mism += 1
+            report.failure("c10-model-ast-roundtrip", "the model's own file round trip failed", replay, no_input=True)
+            continue
+        got, flags, dup = model_summary(m["items"])
+        if dup:
+            continue
+        want = ast_summary(c["dump"])
+        for n_, r in got["recipes"].items():
+            if r.pop("_docattr"):
+                r["doc"] = want["recipes"].get(n_, {}).get("doc")
+        bad_flags = {k: v for k, v in flags.items() if c["dump"]["settings"].get(k) != v}
+        if got != want or bad_flags:
+            mism += 1
+            report.failure("c10-model-ast-items", "the items the Lean parse_ast returns do not match the JSON dump",
+                           dict(replay, model=got, impl=want, flags=bad_flags), no_input=True)
+    stats["ast_mismatches"] = mism
+    return stats
+
+
 def dump_of(r):
     return r.get("dump")
 
@@ -793,6 +1045,7 @@ def run(report):
     stats.update(model_stream(report, jv, C.Driver(), tier))
     stats.update(header_stream(report, jv, C.Driver(), tier))
     stats.update(item_stream(report, jv, C.Driver(), tier))
+    stats.update(ast_stream(report, jv, C.Driver(), tier, [s for s, o, r in zip(srcs, origin, first) if o in ('grammar', 'repo', 'mutated')]))
     report.coverage.update({"inputs": len(srcs) + len(fcases)})
     report.coverage.update(stats)
     report.assumptions += [
